@@ -34,7 +34,8 @@ Edit(op, a, b, c, newtracks, keepmemo) ==
   /\ hist' = Append(hist, [H(op, a, b, c, <<>>) EXCEPT !.tracks = newtracks])
   /\ UNCHANGED <<ftype, tpb>>
 
-NewMsg == Ev(nextid % 3, 10 + nextid)
+\* every fourth new message is an end_of_track with a non-zero delta (ids: 0)
+NewMsg == IF nextid % 4 = 2 THEN Ev(2, 0) ELSE Ev(nextid % 3, 10 + nextid)
 
 AddTrack ==       \* mid.add_track()  (the only edit that drops the memo in the original code)
   /\ "add_track" \in OpSet /\ Len(tracks) < 3
@@ -70,6 +71,25 @@ MsgSetTime ==     \* mid.tracks[t][i].time = v
        /\ tracks[t][i].dt # v
        /\ Edit("msg_time", t, i, v, [tracks EXCEPT ![t][i].dt = v], TRUE)
   /\ UNCHANGED nextid
+MsgSetAttr ==     \* mid.tracks[t][i].note = ... / .tempo = ...  (in place, same delta)
+  /\ "msg_attr" \in OpSet
+  /\ \E t \in DOMAIN tracks : \E i \in DOMAIN tracks[t] :
+       /\ tracks[t][i].id # 0
+       /\ Edit("msg_attr", t, i, tracks[t][i].id + 30, [tracks EXCEPT ![t][i].id = @ + 30], TRUE)
+  /\ UNCHANGED nextid
+MsgReplace ==     \* mid.tracks[t][i] = msg   (a new message with the same delta)
+  /\ "msg_replace" \in OpSet
+  /\ \E t \in DOMAIN tracks : \E i \in DOMAIN tracks[t] :
+       /\ tracks[t][i].id # 0
+       /\ Edit("msg_replace", t, i, tracks[t][i].id + 60, [tracks EXCEPT ![t][i].id = @ + 60], TRUE)
+  /\ UNCHANGED nextid
+MsgSwapTimes ==   \* the deltas of two neighbours are exchanged (the track's total is unchanged)
+  /\ "msg_swap" \in OpSet
+  /\ \E t \in DOMAIN tracks : \E i \in DOMAIN tracks[t] :
+       /\ i < Len(tracks[t]) /\ tracks[t][i].dt # tracks[t][i + 1].dt
+       /\ Edit("msg_swap", t, i, 0, [tracks EXCEPT ![t][i].dt = tracks[t][i + 1].dt,
+                                                   ![t][i + 1].dt = tracks[t][i].dt], TRUE)
+  /\ UNCHANGED nextid
 SetTpb ==
   /\ "set_tpb" \in OpSet
   /\ \E v \in {96, 480} : v # tpb /\ tpb' = v
@@ -94,7 +114,7 @@ Save ==           \* save() writes the tracks directly
 Init == /\ ftype = 1 /\ tpb = 480 /\ tracks = <<>> /\ memo = None /\ hist = <<>> /\ nextid = 1
 Next == /\ Len(hist) < MaxOps
         /\ \/ AddTrack \/ TracksAppend \/ TracksRemove \/ MsgAppend \/ MsgInsert \/ MsgDelete
-           \/ MsgSetTime \/ SetTpb \/ SetType
+           \/ MsgSetTime \/ MsgSetAttr \/ MsgReplace \/ MsgSwapTimes \/ SetTpb \/ SetType
            \/ Observe("iterate") \/ Observe("length") \/ Observe("merged_track") \/ Observe("play") \/ Save
 Spec == Init /\ [][Next]_vars
 
@@ -112,6 +132,7 @@ OpCode(op) == CASE op = "add_track" -> 1 [] op = "tracks_append" -> 2 [] op = "t
                 [] op = "msg_time" -> 7 [] op = "set_tpb" -> 8 [] op = "set_type" -> 9
                 [] op = "iterate" -> 10 [] op = "length" -> 11 [] op = "merged_track" -> 12
                 [] op = "save" -> 13 [] op = "play" -> 14
+                [] op = "msg_attr" -> 15 [] op = "msg_replace" -> 16 [] op = "msg_swap" -> 17
 NObs == Cardinality({i \in DOMAIN hist : IsObs(hist[i]) \/ hist[i].op = "save"})
 Emit == (Len(hist) = MaxOps /\ NObs >= 1 /\ (IsObs(hist[MaxOps]) \/ hist[MaxOps].op = "save")) =>
   PrintT(ToString(<<"EMIT", Len(hist)>> \o
